@@ -477,7 +477,7 @@ hs_tag = GenerateMatch(
 
 hs_tags = GenerateMatch(
     lambda ver: ZeroOrMore(Or([hs_tag[ver], \
-                               Suppress(Regex(r'[ *]'))])) \
+                               Suppress(Literal(' '))])) \
         .setName('tags'))
 
 
